@@ -9,7 +9,7 @@ import travrun, travcmp
 
 def cfgs(ctx):
     if ctx.tier == "quick":
-        return [("Traversal_path5.cfg", None, None), ("Traversal_narrow3.cfg", None, None), ("Traversal_wide2.cfg", None, None),
+        return [("Traversal_path5.cfg", None, None), ("Traversal_wide2.cfg", None, None),
                 ("Traversal_sim.cfg", "num=100", 8)]
     return [("Traversal_path5.cfg", None, None), ("Traversal_narrow3.cfg", None, None), ("Traversal_wide2.cfg", None, None), ("Traversal_plan3.cfg", None, None),
             ("Traversal_sim.cfg", "num=6000", 8)]
